@@ -2,6 +2,7 @@ import AdaVerif.Model.UrlRec
 import AdaVerif.Lemmas.AggEditors
 import AdaVerif.Lemmas.UrlSetters
 import AdaVerif.Lemmas.ParseInv
+import AdaVerif.Lemmas.AggSetPathname
 /-
 C04 — `ada::url` and `ada::url_aggregator` are observationally identical.
 
@@ -214,6 +215,19 @@ theorem hash_agrees (L : Nat) (u : Url) (v : Bytes) (g : Good u) (hv : v ≠ [])
   split
   · exact (view_of_good _ g').1
   · exact (view_of_good u g).1
+
+/-- **set_pathname: both types agree** - `ada::url` rebuilds its path string with `helpers::parse_prepared_path` and
+    decides the "/." guard when serialising; `url_aggregator` clears the path in the buffer, runs its own copy of the
+    path builder (with the in-place shortcut) and inserts the guard afterwards: same buffer, offsets and return value -/
+theorem pathname_agrees (L ty : Nat) (u : Url) (v : Bytes) (g : Good u) (hty : AdaVerif.Lemmas.PP.TyOf u.scheme ty) :
+    view (setPathnameR L ty (recOf u) v) = setPathnameM L ty u.isSpecial (layout (ofUrl u)) v := by
+  have ok := credOk_of_recInv u g.inv
+  rw [setPathnameR_eq L ty u v hty, setPathname_end_to_end L ty u v ok hty]
+  cases ho : u.isOpaque
+  · have hns : ∀ s ∈ (setPathname u v).path, (0x2F : UInt8) ∉ s := (parsePath_layout ty u v ok hty ho).choose_spec.2.2
+    simp only [Bool.false_eq_true, ↓reduceIte]
+    exact view_guard u _ g ⟨AdaVerif.Lemmas.recinv_pathname u v g.inv, hns⟩ L
+  · simp [view, (view_of_good u g).1]
 
 /-- the hypotheses are satisfiable -/
 example : Good { scheme := bHttps, host := some (.domain (ofStr "h")), path := [ofStr "a", []] } :=
